@@ -7,8 +7,14 @@ import "verif/verifrt"
 // C01: after every event of a chain-consistent history the balance (for every
 // minConf >= 0 and every syncHeight >= tip) and the spendable outputs equal
 // the ledger truth.
-func zzC01(defs []zzTxDef, steps int) {
+func zzC01(defs []zzTxDef, steps int) { zzC01P(defs, nil, steps) }
+
+// zzC01P: the first len(pre) events are fixed (a preamble that brings the
+// store into a state the free events alone would need a longer history for).
+func zzC01P(defs []zzTxDef, pre []int, steps int) {
 	w := zzNewWorld(defs)
+	w.forced = pre
+	steps += len(pre)
 	for s := 0; s < steps; s++ {
 		if !w.step(s > 0) {
 			verifrt.Assume(false)
@@ -26,3 +32,5 @@ func ZzC01U3L3() { zzC01(zzU3(), 3) }
 func ZzC01U4L3() { zzC01(zzU4(), 3) }
 func ZzC01U7L3() { zzC01(zzU7(), 3) }
 func ZzC01U8L3() { zzC01(zzU8(), 3) }
+
+func ZzC01U9P3L2() { zzC01P(zzU9(), zzU9Preamble(), 2) }
